@@ -25,15 +25,17 @@ EPS = np.finfo(float).eps
 K = 64.0
 G = 1.4
 PAR = {"ptot": 3.0, "rttot": 1.5, "p": 0.9}
+PAR_LOW = {"ptot": 0.9, "rttot": 1.5, "p": 1.4}      # total pressure below every interior pressure of the alphabet: blocked inlets (the max(0,.) clamps are active)
+_PARS = {"std": PAR, "low": PAR_LOW}
 NAMES = ["per", "sym", "insub", "insup", "outsub", "outsup"]
 ALPHA = [(1.0, 0.0, 0.0, 1.0), (2.0, 0.5, -0.3, 1.0), (1.0, -0.4, 0.6, 2.0), (1.5, 1.4, 0.9, 1.5)]
 ALPHA1D = [(1.0, 0.0, 1.0), (2.0, 0.5, 1.0), (1.0, -0.4, 2.0), (1.5, 1.4, 1.5)]
 
 
-def bcd(name, angle=None):
+def bcd(name, angle=None, par="std"):
     if name in ("per", "sym"):
         return {"type": name}
-    d = dict(PAR, type=name)
+    d = dict(_PARS[par], type=name)
     if angle is not None and name == "insup":
         d["angle"] = angle
     return d
@@ -75,7 +77,7 @@ def rhs2d(flux, rname, grid, bcs, q):
 PAIRS = [("extrapol2d1", "extrapol1")] + [("extrapol2dk:%r" % k, "extrapolk:%r" % k) for k in (-1.0, 0.0, 1.0 / 3.0, 0.5, 1.0)]
 
 
-def check_1d2d(flux, pair, nx, ny, lr, tb, idx, axis, res=None):
+def check_1d2d(flux, pair, nx, ny, lr, tb, idx, axis, res=None, par="std"):
     """axis 0: data vary along x (rows are copies), axis 1: along y"""
     r2, r1 = pair
     lx, ly = 2.0, 0.75
@@ -85,7 +87,7 @@ def check_1d2d(flux, pair, nx, ny, lr, tb, idx, axis, res=None):
     L1 = lx if axis == 0 else ly
     mesh1 = space.mesh1.unimesh(ncell=n, length=L1)
     model1 = space.euler.euler1d(gamma=G)
-    disc1 = space.modeldisc.fvm(model1, mesh1, space.recon(r1), numflux=flux, bcL=bcd(lr[0]), bcR=bcd(lr[1]))
+    disc1 = space.modeldisc.fvm(model1, mesh1, space.recon(r1), numflux=flux, bcL=bcd(lr[0], par=par), bcR=bcd(lr[1], par=par))
     q1 = [P1[0].copy(), P1[0] * P1[1], P1[2] / (G - 1) + 0.5 * P1[0] * P1[1] ** 2]
     with np.errstate(all="ignore"):
         R1 = [np.asarray(r, float).copy() for r in disc1.rhs(space.field.fdata(model1, mesh1, q1))]
@@ -96,16 +98,17 @@ def check_1d2d(flux, pair, nx, ny, lr, tb, idx, axis, res=None):
         rho = np.tile(P1[0], m)
         u, v = np.tile(P1[1], m), np.zeros(n * m)
         p = np.tile(P1[2], m)
-        bcs = {"left": bcd(lr[0]), "right": bcd(lr[1]), "bottom": bcd(tb), "top": bcd(tb)}
+        bcs = {"left": bcd(lr[0], par=par), "right": bcd(lr[1], par=par), "bottom": bcd(tb), "top": bcd(tb)}
     else:
         grid = (m, n, lx, ly)
         rho = np.repeat(P1[0], m)
         u, v = np.zeros(n * m), np.repeat(P1[1], m)
         p = np.repeat(P1[2], m)
-        bcs = {"bottom": bcd(lr[0]), "top": bcd(lr[1]), "left": bcd(tb), "right": bcd(tb)}
+        bcs = {"bottom": bcd(lr[0], par=par), "top": bcd(lr[1], par=par), "left": bcd(tb), "right": bcd(tb)}
     R2, S = rhs2d(flux, r2, grid, bcs, cons2d(np.array([rho, u, v, p])))
     out = []
-    site = "C15/2d=1d/%s/%s/%s/%s-%s/%s" % ("x" if axis == 0 else "y", flux, "first-order" if r1 == "extrapol1" else "k-scheme", lr[0], lr[1], tb)
+    site = "C15/2d=1d/%s/%s/%s/%s-%s/%s%s" % ("x" if axis == 0 else "y", flux, "first-order" if r1 == "extrapol1" else "k-scheme", lr[0], lr[1], tb,
+                                             "/blocked-inlet-parameters" if par == "low" else "")
     fin1 = all(np.all(np.isfinite(r)) for r in R1)
     fin2 = all(np.all(np.isfinite(r)) for r in R2)
     if not (fin1 and fin2):
@@ -151,6 +154,10 @@ def shard_1d2d(arg):
                             for s, w in check_1d2d(flux, pair, nx, ny, lr, tb, idx, axis, res):
                                 res.violation(s, w, {"kind": "1d2d", "flux": flux, "pair": list(pair), "nx": nx, "ny": ny, "lr": list(lr), "tb": tb,
                                                      "idx": list(idx), "axis": axis})
+                            if ny <= 2 and ("insub" in lr or "insup" in lr) and (tier == "thorough" or len(set(idx)) <= 2):
+                                for s, w in check_1d2d(flux, pair, nx, ny, lr, tb, idx, axis, res, par="low"):
+                                    res.violation(s, w, {"kind": "1d2d", "flux": flux, "pair": list(pair), "nx": nx, "ny": ny, "lr": list(lr), "tb": tb,
+                                                         "idx": list(idx), "axis": axis, "par": "low"})
     res.sample({"flux": flux, "recon_2d": pair[0], "recon_1d": pair[1], "cells_along_x": 3, "rows": 2, "left_right": ["insub", "outsub"], "top_bottom": "sym",
                 "data_letters": [0, 1, 2]}, cap=1)
     return res
@@ -270,6 +277,14 @@ def shard_sym(arg):
     return res
 
 
+def shard_sym_multi(args):
+    """several grids in one shard (used with object pooling: 2x3 and 3x2 have the same number of cells and faces)"""
+    res = core.Res()
+    for a in args:
+        res.merge(shard_sym(a))
+    return res
+
+
 def run(ctx):
     th = ctx.thorough
     ctx.pmap("2d-equals-1d", shard_1d2d, [(fl, pair, ctx.tier) for fl in ("centered", "hlle") for pair in PAIRS])
@@ -283,9 +298,12 @@ def run(ctx):
                 cfg.append((flux, rname, (nx, ny, 2.0, 0.75), "subset"))
     cfg.sort(key=lambda c: -(c[2][0] * c[2][1]) - (100 if c[3] == "subset" else 0))
     ctx.pmap("grid-symmetries", shard_sym, cfg)
+    multi = [[(flux, rname, (nx, ny, 2.0, 0.75), "subset") for nx, ny in (((2, 3), (3, 2), (1, 2), (2, 1), (2, 2)) if th else ((1, 2), (2, 1), (2, 2), (1, 3)))]
+             for flux in ("centered", "hlle") for rname in (recs if th else recs[:2])]
+    ctx.pmap("grid-symmetries-reused-objects", core.Pooled(shard_sym_multi), multi)
 
 
 def replay(case):
     if case["kind"] == "1d2d":
-        return check_1d2d(case["flux"], tuple(case["pair"]), case["nx"], case["ny"], tuple(case["lr"]), case["tb"], tuple(case["idx"]), case["axis"])
+        return check_1d2d(case["flux"], tuple(case["pair"]), case["nx"], case["ny"], tuple(case["lr"]), case["tb"], tuple(case["idx"]), case["axis"], par=case.get("par", "std"))
     return check_sym(case["flux"], case["recon"], tuple(case["grid"]), tuple(case["names"]), tuple(case["idx"]), case["angle"])
